@@ -329,6 +329,71 @@ func (m *listModel) step(op *LOp) (listStep, error) {
 		}
 		pat := []string{"%s[%d] == 1", "[1].contains(%s[%d])", "%s[%d] is number", "!%s[%d]"}[op.Idx%4]
 		return listStep{stmts: []string{"print \"LAST\"\n}\n" + fmt.Sprintf(pat, H, -k) + " { print \"PAT\" }\n{ print \"AFTER\""}, fatal: true, pattern: true}, nil
+	case "self-rhs":
+		// a write at or past the end whose right-hand side looks at the same
+		// array: it sees the array as it is before the write (also before any padding)
+		d := op.Idx
+		if d < 0 || d > 2 {
+			return listStep{}, errUnsupported{"gap"}
+		}
+		var v HV
+		var rhs string
+		switch op.Nested {
+		case "len":
+			v, rhs = hNum(float64(n)), H+".length()"
+		case "last":
+			if n == 0 || (*l)[n-1].isContainer() {
+				return listStep{}, errUnsupported{"needs a scalar last element"}
+			}
+			v, rhs = (*l)[n-1], H+"[-1]"
+		case "lastplus":
+			if n == 0 || (*l)[n-1].K != 'n' || math.IsNaN((*l)[n-1].Num) || math.IsInf((*l)[n-1].Num, 0) {
+				return listStep{}, errUnsupported{"needs a numeric last element"}
+			}
+			v, rhs = hNum((*l)[n-1].Num+1), H+"[-1] + 1"
+		default:
+			return listStep{}, errUnsupported{"kind"}
+		}
+		for len(*l) < n+d {
+			*l = append(*l, hNull())
+		}
+		*l = append(*l, v)
+		return listStep{stmts: []string{fmt.Sprintf("%s[%d] = %s", H, n+d, rhs)}}, nil
+	case "sort-keep":
+		// the sorted copy is kept, changed in place (no push), and sorted again
+		if !sortKeyOK(*l) || n < 2 {
+			return listStep{}, errUnsupported{"sort needs two or more numbers and strings"}
+		}
+		kept := sortedCopy(*l)
+		var stmts []string
+		stmts = append(stmts, "kept = "+H+".sort()")
+		switch op.Nested {
+		case "set":
+			v, ok := parseLit(op.Lit)
+			if !ok || (v.K != 'n' && v.K != 's') || (v.K == 'n' && math.IsNaN(v.Num)) {
+				return listStep{}, errUnsupported{"literal"}
+			}
+			i := op.Idx % n
+			kept[i] = v
+			stmts = append(stmts, fmt.Sprintf("kept[%d] = %s", i, op.Lit))
+		case "incr":
+			i := op.Idx % n
+			if kept[i].K != 'n' || math.IsInf(kept[i].Num, 0) {
+				return listStep{}, errUnsupported{"needs a number"}
+			}
+			kept[i] = hNum(kept[i].Num + 100)
+			stmts = append(stmts, fmt.Sprintf("kept[%d] += 100", i))
+		case "pop":
+			kept = kept[:len(kept)-1]
+			stmts = append(stmts, "kept.pop()")
+		case "popfirst":
+			kept = kept[1:]
+			stmts = append(stmts, "kept.popfirst()")
+		default:
+			return listStep{}, errUnsupported{"kind"}
+		}
+		stmts = append(stmts, R("kept.sort()"), R("kept"))
+		return listStep{stmts: stmts, result: "[" + canonList(sortedCopy(kept)) + "]", result2: "[" + canonList(kept) + "]"}, nil
 	case "nested":
 		if op.Other == op.Arr && op.Nested != "push-selflen" {
 			return listStep{}, errUnsupported{"nested needs two different arrays"}
@@ -770,7 +835,11 @@ func genListCase(t *Tape, maxOps int, bulk bool) *ListCase {
 		if bulk {
 			bw = 6
 		}
-		switch t.Weighted(8, 5, 5, 3, 4, 4, 4, 3, 8, 1, 2, bw, bw, bw, 2) {
+		switch t.Weighted(8, 5, 5, 3, 4, 4, 4, 3, 8, 1, 2, bw, bw, bw, 2, 2, 2) {
+		case 15:
+			op.Kind, op.Nested, op.Idx = "self-rhs", []string{"len", "last", "lastplus"}[t.Draw(3)], t.Draw(3)
+		case 16:
+			op.Kind, op.Nested, op.Idx, op.Lit = "sort-keep", []string{"set", "incr", "pop", "popfirst", "set"}[t.Draw(5)], t.Draw(8), listSortableLits[t.Draw(len(listSortableLits))]
 		case 14:
 			op.Kind, op.Lit, op.Idx = "lit-assign", listScalarLits[t.Draw(len(listScalarLits))], t.Draw(ln+1)-1
 		case 11:
